@@ -14,8 +14,16 @@ fn name_bytes(rng: &mut Rng, len: usize, class: u64) -> Vec<u8> {
         .collect()
 }
 
-fn one(s: &mut Session, rng: &mut Rng, kind: &str, addr: String, tail: &[u8], accepted: bool) {
+fn one(s: &mut Session, rng: &mut Rng, kind: &str, addr: String, tail: &[u8], representable: bool) {
     s.begin_case(kind);
+    // the client's own admission decision (local handshake)
+    let accepted = s.run(&format!("addr.accept {}", addr)) == "1";
+    if accepted && !representable {
+        s.oracle_fail("admission", &format!("unrepresentable address {} admitted by the local handshake", &addr[..addr.len().min(60)]));
+    }
+    if !accepted && representable {
+        s.oracle_fail("admission-refuses-valid", &format!("representable address {} refused", &addr[..addr.len().min(60)]));
+    }
     // socks5 form
     let enc = s.run(&format!("addr.enc s5 {}", addr));
     s.run(&format!("addr.len s5 {}", addr));
